@@ -192,6 +192,10 @@ def str_strip(eng, st, node, a, kw, k, ctx):
     st.assume(z3.Contains(s.t, r))
     st.assume(z3.Length(r) <= z3.Length(s.t))
     st.assume(strip_term(s.t, lift(a[1]).t if len(a) > 1 else None) == r)
+    if len(a) == 1:
+        # a text whose first and last characters are printable ASCII other than the blank is returned unchanged (python strips white space only)
+        first, last = z3.StrToCode(z3.SubString(s.t, 0, 1)), z3.StrToCode(z3.SubString(s.t, z3.Length(s.t) - 1, 1))
+        st.assume(z3.Implies(z3.And(z3.Length(s.t) > 0, first >= 33, first <= 126, last >= 33, last <= 126), r == s.t))
     eng.assumption_log.add("str.strip returns a contiguous part of the text (abstract otherwise: an uninterpreted function of text and character set)")
     return k(st, V(STR, r))
 
